@@ -113,6 +113,14 @@ def ob_condition(mod, fname, line, timeout_s):
     return dict(base, status="cex", cex=cex, replay=rp, finding_key=f"{mod}.{fname}" + (":" + str(rp.get("finding_key")) if rp.get("finding_key") else ""))
 
 
+def ob_twin(mod, fname, line, timeout_s):
+    """reachability twin: a deliberately false claim about the same harness path must be REFUTED by CrossHair"""
+    r = run_condition(mod, fname, line, timeout_s)
+    stats = {"queries": {"unsat": 0, "sat": 1 if r["status"] == "cex" else 0, "unknown": 0 if r["status"] == "cex" else 1}, "solver_s": r["wall_s"], "digests": [f"{mod}.{fname}"],
+             "samples": [{"obligation": f"crosshair check {mod}.py:{fname} (twin: must be refuted)", "result": r["status"], "crosshair_output": r["raw"][-200:]}]}
+    return {"status": "witness" if r["status"] == "cex" else "nowitness", "stats": stats, "note": None if r["status"] == "cex" else f"twin not refuted: {r['status']} {r.get('note')}"}
+
+
 def replay_generic(cex):
     """run the harness module in REAL mode (real numpy/numba/sketchnu): real_<function>(*args) -> (ok, detail)"""
     if cex.get("kind") != "w" or cex.get("args") is None:
@@ -155,7 +163,7 @@ def obligations(name, tier):
         except Exception:
             pass
         for fname, line, doc in fns:
-            if only and fname not in only:
+            if only and fname not in only and not fname.startswith("check_twin"):
                 continue
             if tier == "quick" and "tier: thorough" in doc:
                 continue
@@ -163,6 +171,9 @@ def obligations(name, tier):
             mm = re.search(r"timeout: (\d+)", doc)
             if mm:
                 t = int(mm.group(1)) * (1 if tier == "quick" else 4)
+            if fname.startswith("check_twin"):
+                obs.append(common.Ob(f"W twin {mod}.{fname}", ob_twin, (mod, fname, line, t), kind="witness", hard_s=t * 3 + 200))
+                continue
             obs.append(common.Ob(f"W {mod}.{fname}", ob_condition, (mod, fname, line, t), hard_s=t * 3 + 200,
                                  bounds={"crosshair_condition": fname, "per_condition_timeout_s": t, "pre": [ln.strip() for ln in doc.splitlines() if ln.strip().startswith("pre:")]}))
             meta["conditions"] += 1
